@@ -189,6 +189,7 @@ type Parser struct {
 	prefix    string
 	currFunc  string
 	usedFuncs map[string][]string // Stores which function (key) calls which functions (values).
+	chain     []string            // Stores the files currently being parsed (main file first) to detect import cycles.
 }
 
 func New() Parser {
@@ -198,6 +199,7 @@ func New() Parser {
 }
 
 func (p *Parser) Parse(path string) (Program, error) {
+	p.chain = nil
 	return p.parse(path, false)
 }
 
@@ -211,6 +213,14 @@ func (p *Parser) parse(path string, imported bool) (Program, error) {
 		}
 		path = pathTemp
 	}
+
+	cleanPath := filepath.Clean(path)
+
+	// Make sure the file is not already being parsed further up the import chain.
+	if slices.Contains(p.chain, cleanPath) {
+		return Program{}, fmt.Errorf("import cycle not allowed: %s", strings.Join(append(p.chain, cleanPath), " -> "))
+	}
+	p.chain = append(slices.Clone(p.chain), cleanPath)
 
 	// Make sure path exists.
 	if _, err := os.Stat(path); err != nil {
@@ -692,6 +702,7 @@ func (p *Parser) evaluateImports(ctx context) ([]Statement, error) {
 				return nil, fmt.Errorf(`an alias must be provided for the local import "%s" in "%s"`, path, p.path)
 			}
 			importParser := New()
+			importParser.chain = p.chain
 			importedProg, err := importParser.parse(absPath, true)
 
 			if err != nil {
